@@ -27,12 +27,12 @@ import (
 )
 
 const (
-	lgNodes      = 7
-	lgTsBase     = 1000000000000 // validation time = epoch + lgTsBase (after the genesis custodian)
-	lgGenesisKey = 90000000
+	c15Nodes      = 7
+	c15TsBase     = 1000000000000 // validation time = epoch + c15TsBase (after the genesis custodian)
+	c15GenesisKey = 90000000
 )
 
-type ledgerCase struct {
+type c15LedgerCase struct {
 	dir   string
 	store *storage.BadgerStore
 	epoch uint64
@@ -61,13 +61,13 @@ type ledgerCase struct {
 	finalTx  map[int]bool
 }
 
-func lgSeed64(tag string, n int) []byte {
+func c15Seed64(tag string, n int) []byte {
 	h1 := crypto.Sha256Hash([]byte(fmt.Sprintf("verif-%s-%d-a", tag, n)))
 	h2 := crypto.Sha256Hash([]byte(fmt.Sprintf("verif-%s-%d-b", tag, n)))
 	return append(h1[:], h2[:]...)
 }
 
-func lgAssetHash(a int) crypto.Hash {
+func c15AssetHash(a int) crypto.Hash {
 	switch a {
 	case 1:
 		return common.XINAssetId
@@ -79,7 +79,7 @@ func lgAssetHash(a int) crypto.Hash {
 	return crypto.Sha256Hash([]byte(fmt.Sprintf("verif-asset-%d", a)))
 }
 
-func lgChainHash(c int) crypto.Hash {
+func c15ChainHash(c int) crypto.Hash {
 	switch c {
 	case 2:
 		return common.BitcoinAssetId
@@ -89,47 +89,47 @@ func lgChainHash(c int) crypto.Hash {
 	return crypto.Sha256Hash([]byte(fmt.Sprintf("verif-chain-%d", c)))
 }
 
-func lgAssetKey(k int) string {
+func c15AssetKey(k int) string {
 	if k == 1 {
 		return common.XINAsset.AssetKey
 	}
 	return fmt.Sprintf("key%d", k)
 }
 
-func lgCap(a int) *big.Int { return integerToBig(common.GetAssetCapacity(lgAssetHash(a))) }
+func c15Cap(a int) *big.Int { return integerToBig(common.GetAssetCapacity(c15AssetHash(a))) }
 
-func lgClaimFee() *big.Int {
+func c15ClaimFee() *big.Int {
 	return integerToBig(common.NewIntegerFromString(config.WithdrawalClaimFee))
 }
 
-func (c *ledgerCase) account(j int) *common.Address {
+func (c *c15LedgerCase) account(j int) *common.Address {
 	if a := c.accounts[j]; a != nil {
 		return a
 	}
-	a := common.NewAddressFromSeed(lgSeed64("acct", j))
+	a := common.NewAddressFromSeed(c15Seed64("acct", j))
 	c.accounts[j] = &a
 	return &a
 }
 
-func lgNodeAddress(tag string, i int) common.Address {
-	a := common.NewAddressFromSeed(lgSeed64(tag, i))
+func c15NodeAddress(tag string, i int) common.Address {
+	a := common.NewAddressFromSeed(c15Seed64(tag, i))
 	a.PrivateViewKey = a.PublicSpendKey.DeterministicHashDerive()
 	a.PublicViewKey = a.PrivateViewKey.Public()
 	return a
 }
 
-func newLedgerCase(root string) *ledgerCase {
+func c15NewLedgerCase(root string) *c15LedgerCase {
 	dir, err := os.MkdirTemp(root, "ledger-")
 	if err != nil {
 		panic(err)
 	}
-	c := &ledgerCase{dir: dir, accounts: map[int]*common.Address{},
+	c := &c15LedgerCase{dir: dir, accounts: map[int]*common.Address{},
 		txByID: map[int]*common.VersionedTransaction{}, txID: map[crypto.Hash]int{}, keyID: map[crypto.Key]int{},
 		snapID: map[crypto.Hash]int{}, depID: map[crypto.Hash]int{}, assetID: map[crypto.Hash]int{},
 		assetOf: map[int]crypto.Hash{}, chainID: map[crypto.Hash]int{}, akeyID: map[string]int{},
 		opaqueID: map[string]int{}, validated: map[int]bool{}, locked: map[int]bool{}, pending: map[int]bool{},
 		expected: map[int]*big.Int{}, finalTx: map[int]bool{}}
-	c.custodian = common.NewAddressFromSeed(lgSeed64("custodian", 0))
+	c.custodian = common.NewAddressFromSeed(c15Seed64("custodian", 0))
 	type gnode struct {
 		Signer    string `json:"signer"`
 		Payee     string `json:"payee"`
@@ -141,8 +141,8 @@ func newLedgerCase(root string) *ledgerCase {
 		Nodes     []gnode `json:"nodes"`
 		Custodian string  `json:"custodian"`
 	}{Epoch: 1700000000, Custodian: c.custodian.String()}
-	for i := 1; i <= lgNodes; i++ {
-		s, p, cu := lgNodeAddress("signer", i), lgNodeAddress("payee", i), lgNodeAddress("nodecustodian", i)
+	for i := 1; i <= c15Nodes; i++ {
+		s, p, cu := c15NodeAddress("signer", i), c15NodeAddress("payee", i), c15NodeAddress("nodecustodian", i)
 		g.Nodes = append(g.Nodes, gnode{s.String(), p.String(), cu.String(), "13439"})
 	}
 	data, _ := json.Marshal(g)
@@ -178,14 +178,14 @@ func newLedgerCase(root string) *ledgerCase {
 		c.txID[tx.PayloadHash()] = id
 		c.snapID[snaps[i].PayloadHash()] = id
 		for j, k := range tx.Outputs[0].Keys {
-			c.keyID[*k] = lgGenesisKey + 100*id + j + 1
+			c.keyID[*k] = c15GenesisKey + 100*id + j + 1
 		}
 		c.finalTx[id] = true
 	}
 	return c
 }
 
-func (c *ledgerCase) close() {
+func (c *c15LedgerCase) close() {
 	if c.store != nil {
 		_ = c.store.Close()
 		c.store = nil
@@ -193,7 +193,7 @@ func (c *ledgerCase) close() {
 	_ = os.RemoveAll(c.dir)
 }
 
-func lgAtoi(s string) int {
+func c15Atoi(s string) int {
 	n, err := strconv.Atoi(s)
 	if err != nil {
 		panic("harness: bad integer in op line: " + s)
@@ -201,16 +201,16 @@ func lgAtoi(s string) int {
 	return n
 }
 
-func lgSplit(s, sep string) []string {
+func c15Split(s, sep string) []string {
 	if s == "-" || s == "" {
 		return nil
 	}
 	return strings.Split(s, sep)
 }
 
-type lgKeysReader struct{ c *ledgerCase }
+type c15KeysReader struct{ c *c15LedgerCase }
 
-func (r lgKeysReader) ReadUTXOKeys(hash crypto.Hash, index uint) (*common.UTXOKeys, error) {
+func (r c15KeysReader) ReadUTXOKeys(hash crypto.Hash, index uint) (*common.UTXOKeys, error) {
 	id, ok := r.c.txID[hash]
 	if !ok || int(index) >= len(r.c.txByID[id].Outputs) {
 		return nil, nil
@@ -220,10 +220,10 @@ func (r lgKeysReader) ReadUTXOKeys(hash crypto.Hash, index uint) (*common.UTXOKe
 }
 
 // build the real transaction described by a `tx` line
-func (c *ledgerCase) buildTx(f []string) {
-	id, asset := lgAtoi(f[1]), lgAtoi(f[2])
-	sigok, custok, nonce := f[3] == "1", f[4] == "1", lgAtoi(f[5])
-	ins, outs, refs := lgSplit(f[6], ","), lgSplit(f[7], ","), lgSplit(f[8], ",")
+func (c *c15LedgerCase) buildTx(f []string) {
+	id, asset := c15Atoi(f[1]), c15Atoi(f[2])
+	sigok, custok, nonce := f[3] == "1", f[4] == "1", c15Atoi(f[5])
+	ins, outs, refs := c15Split(f[6], ","), c15Split(f[7], ","), c15Split(f[8], ",")
 	if len(ins) > 0 && ins[0] == "g" {
 		if c.txByID[id] == nil {
 			panic("harness: unknown genesis transaction symbol")
@@ -235,17 +235,17 @@ func (c *ledgerCase) buildTx(f []string) {
 		p := strings.Split(in, ":")
 		switch p[0] {
 		case "u":
-			src := c.txByID[lgAtoi(p[1])]
+			src := c.txByID[c15Atoi(p[1])]
 			if src == nil {
 				panic("harness: input refers to an undeclared transaction")
 			}
-			tx.AddInput(src.PayloadHash(), uint(lgAtoi(p[2])))
+			tx.AddInput(src.PayloadHash(), uint(c15Atoi(p[2])))
 		case "d":
-			d := &common.DepositData{Chain: lgChainHash(lgAtoi(p[2])), AssetKey: lgAssetKey(lgAtoi(p[3])),
+			d := &common.DepositData{Chain: c15ChainHash(c15Atoi(p[2])), AssetKey: c15AssetKey(c15Atoi(p[3])),
 				Transaction: "dep" + p[1], Index: 0, Amount: integerFromBig(parseBig(p[4]))}
-			c.depID[d.UniqueKey()] = lgAtoi(p[1])
-			c.chainID[d.Chain] = lgAtoi(p[2])
-			c.akeyID[d.AssetKey] = lgAtoi(p[3])
+			c.depID[d.UniqueKey()] = c15Atoi(p[1])
+			c.chainID[d.Chain] = c15Atoi(p[2])
+			c.akeyID[d.AssetKey] = c15Atoi(p[3])
 			tx.AddDepositInput(d)
 		case "m":
 			b, _ := strconv.ParseUint(p[1], 10, 64)
@@ -259,7 +259,7 @@ func (c *ledgerCase) buildTx(f []string) {
 		amount := integerFromBig(parseBig(p[1]))
 		switch p[0] {
 		case "s", "z":
-			kid := lgAtoi(p[2])
+			kid := c15Atoi(p[2])
 			seed, acct, idx := kid/10000, (kid/100)%100, kid%100
 			if idx != i {
 				panic("harness: key symbol does not encode the output index")
@@ -268,7 +268,7 @@ func (c *ledgerCase) buildTx(f []string) {
 			if p[0] == "z" {
 				typ = 0x77
 			}
-			tx.AddOutputWithType(typ, []*common.Address{c.account(acct)}, common.NewThresholdScript(1), amount, lgSeed64("seed", seed))
+			tx.AddOutputWithType(typ, []*common.Address{c.account(acct)}, common.NewThresholdScript(1), amount, c15Seed64("seed", seed))
 			c.keyID[*tx.Outputs[i].Keys[0]] = kid
 		case "w":
 			tx.Outputs = append(tx.Outputs, &common.Output{Type: common.OutputTypeWithdrawalSubmit, Amount: amount,
@@ -280,14 +280,14 @@ func (c *ledgerCase) buildTx(f []string) {
 		}
 	}
 	for _, r := range refs {
-		src := c.txByID[lgAtoi(r)]
+		src := c.txByID[c15Atoi(r)]
 		if src == nil {
 			panic("harness: reference to an undeclared transaction")
 		}
 		tx.References = append(tx.References, src.PayloadHash())
 	}
 	nb := binary.BigEndian.AppendUint64(nil, uint64(nonce))
-	wrong := crypto.NewKeyFromSeed(lgSeed64("wrong", nonce))
+	wrong := crypto.NewKeyFromSeed(c15Seed64("wrong", nonce))
 	if len(outs) > 0 && strings.HasPrefix(outs[0], "c:") {
 		signer := c.custodian.PrivateSpendKey
 		if !custok {
@@ -321,12 +321,12 @@ func (c *ledgerCase) buildTx(f []string) {
 			src := c.txByID[srcID]
 			var acct *common.Address
 			if int(in.Index) < len(src.Outputs) && len(src.Outputs[in.Index].Keys) == 1 {
-				if kid, ok := c.keyID[*src.Outputs[in.Index].Keys[0]]; ok && kid < lgGenesisKey {
+				if kid, ok := c.keyID[*src.Outputs[in.Index].Keys[0]]; ok && kid < c15GenesisKey {
 					acct = c.account((kid / 100) % 100)
 				}
 			}
 			if acct != nil && sigok {
-				if err := ver.SignInput(lgKeysReader{c}, i, []*common.Address{acct}); err != nil {
+				if err := ver.SignInput(c15KeysReader{c}, i, []*common.Address{acct}); err != nil {
 					panic("harness: SignInput: " + err.Error())
 				}
 			} else if acct != nil {
@@ -345,8 +345,8 @@ func (c *ledgerCase) buildTx(f []string) {
 	c.txID[h] = id
 }
 
-func (c *ledgerCase) assetHash(a int) crypto.Hash {
-	h := lgAssetHash(a)
+func (c *c15LedgerCase) assetHash(a int) crypto.Hash {
+	h := c15AssetHash(a)
 	c.assetOf[a] = h
 	c.assetID[h] = a
 	return h
@@ -354,14 +354,14 @@ func (c *ledgerCase) assetHash(a int) crypto.Hash {
 
 // ---------------------------------------------------------------- database dump
 
-var lgPrefixes = []string{"GHOST", "UTXO", "DEPOSIT", "WITHDRAWAL", "MINTUNIVERSAL", "TRANSACTION", "FINALIZATION",
+var c15Prefixes = []string{"GHOST", "UTXO", "DEPOSIT", "WITHDRAWAL", "MINTUNIVERSAL", "TRANSACTION", "FINALIZATION",
 	"UNIQUE", "ROUND", "SNAPSHOT", "LINK", "TOPOLOGY", "SNAPTOPO", "WORKPROPOSE", "WORKVOTE", "WORKCHECKPOINT",
 	"WORKSNAPSHOT", "SPACECHECKPOINT", "SPACEQUEUE", "ASSETINFO", "ASSETTOTAL", "CUSTODIANUPDATE",
 	"CONSENSUSSNAPSHOT", "NODESTATEQUEUE", "NODEOPERATION"}
 
-func lgFamily(key []byte) string {
+func c15Family(key []byte) string {
 	best := ""
-	for _, p := range lgPrefixes {
+	for _, p := range c15Prefixes {
 		if bytes.HasPrefix(key, []byte(p)) && len(p) > len(best) {
 			best = p
 		}
@@ -369,17 +369,17 @@ func lgFamily(key []byte) string {
 	return best
 }
 
-type rawDB struct{ keys, vals [][]byte }
+type c15RawDB struct{ keys, vals [][]byte }
 
-func (c *ledgerCase) raw() *rawDB {
-	k, v, err := c.store.VerifDumpDB()
+func (c *c15LedgerCase) raw() *c15RawDB {
+	k, v, err := c.store.VerifC15DumpDB()
 	if err != nil {
 		panic(err)
 	}
-	return &rawDB{k, v}
+	return &c15RawDB{k, v}
 }
 
-func (a *rawDB) equal(b *rawDB) bool {
+func (a *c15RawDB) equal(b *c15RawDB) bool {
 	if len(a.keys) != len(b.keys) {
 		return false
 	}
@@ -391,7 +391,7 @@ func (a *rawDB) equal(b *rawDB) bool {
 	return true
 }
 
-func (a *rawDB) get(key []byte) ([]byte, bool) {
+func (a *c15RawDB) get(key []byte) ([]byte, bool) {
 	i := sort.Search(len(a.keys), func(i int) bool { return bytes.Compare(a.keys[i], key) >= 0 })
 	if i < len(a.keys) && bytes.Equal(a.keys[i], key) {
 		return a.vals[i], true
@@ -399,27 +399,27 @@ func (a *rawDB) get(key []byte) ([]byte, bool) {
 	return nil, false
 }
 
-func lgHash(b []byte) crypto.Hash {
+func c15Hash(b []byte) crypto.Hash {
 	var h crypto.Hash
 	copy(h[:], b)
 	return h
 }
 
-func symOf[K comparable](m map[K]int, k K) string {
+func c15SymOf[K comparable](m map[K]int, k K) string {
 	if v, ok := m[k]; ok {
 		return strconv.Itoa(v)
 	}
 	return "?"
 }
 
-func (c *ledgerCase) txSym(h crypto.Hash) string {
+func (c *c15LedgerCase) txSym(h crypto.Hash) string {
 	if !h.HasValue() {
 		return "0"
 	}
-	return symOf(c.txID, h)
+	return c15SymOf(c.txID, h)
 }
 
-func (c *ledgerCase) nodeSym(h crypto.Hash) string {
+func (c *c15LedgerCase) nodeSym(h crypto.Hash) string {
 	for i, n := range c.nodes {
 		if n == h {
 			return strconv.Itoa(i + 1)
@@ -428,13 +428,13 @@ func (c *ledgerCase) nodeSym(h crypto.Hash) string {
 	return "?"
 }
 
-var lgOutLetter = map[uint8]string{common.OutputTypeScript: "s", common.OutputTypeWithdrawalSubmit: "w",
+var c15OutLetter = map[uint8]string{common.OutputTypeScript: "s", common.OutputTypeWithdrawalSubmit: "w",
 	common.OutputTypeWithdrawalClaim: "c", common.OutputTypeNodePledge: "p", common.OutputTypeNodeAccept: "a",
 	common.OutputTypeNodeCancel: "n", common.OutputTypeNodeRemove: "r", common.OutputTypeCustodianUpdateNodes: "u",
 	common.OutputTypeCustodianSlashNodes: "x"}
 
-func lgLetter(t uint8) string {
-	if l, ok := lgOutLetter[t]; ok {
+func c15Letter(t uint8) string {
+	if l, ok := c15OutLetter[t]; ok {
 		return l
 	}
 	return "z"
@@ -442,12 +442,12 @@ func lgLetter(t uint8) string {
 
 // abstract dump in the model's vocabulary; every family the model does not describe is folded
 // into one opaque digest symbol
-func (c *ledgerCase) dump(db *rawDB) string {
+func (c *c15LedgerCase) dump(db *c15RawDB) string {
 	var ls []string
 	opaque := crypto.Sha256Hash(nil)
 	for i, key := range db.keys {
 		val := db.vals[i]
-		fam := lgFamily(key)
+		fam := c15Family(key)
 		rest := key[len(fam):]
 		switch fam {
 		case "UTXO":
@@ -458,24 +458,24 @@ func (c *ledgerCase) dump(db *rawDB) string {
 			}
 			var ks []string
 			for _, k := range u.Keys {
-				ks = append(ks, symOf(c.keyID, *k))
+				ks = append(ks, c15SymOf(c.keyID, *k))
 			}
 			kstr := "-"
 			if len(ks) > 0 {
 				kstr = strings.Join(ks, "+")
 			}
 			idx, _ := binary.Varint(rest[32:])
-			if lgHash(rest[:32]) != u.Hash || uint(idx) != u.Index {
+			if c15Hash(rest[:32]) != u.Hash || uint(idx) != u.Index {
 				ls = append(ls, "U:?key")
 			}
-			ls = append(ls, fmt.Sprintf("U:%s:%d:%s:%s:%s:%s:%s", c.txSym(u.Hash), u.Index, symOf(c.assetID, u.Asset),
-				lgLetter(u.Type), integerToBig(u.Amount), kstr, c.txSym(u.LockHash)))
+			ls = append(ls, fmt.Sprintf("U:%s:%d:%s:%s:%s:%s:%s", c.txSym(u.Hash), u.Index, c15SymOf(c.assetID, u.Asset),
+				c15Letter(u.Type), integerToBig(u.Amount), kstr, c.txSym(u.LockHash)))
 		case "GHOST":
 			var k crypto.Key
 			copy(k[:], rest)
-			ls = append(ls, fmt.Sprintf("G:%s:%s", symOf(c.keyID, k), c.txSym(lgHash(val))))
+			ls = append(ls, fmt.Sprintf("G:%s:%s", c15SymOf(c.keyID, k), c.txSym(c15Hash(val))))
 		case "DEPOSIT":
-			ls = append(ls, fmt.Sprintf("D:%s:%s", symOf(c.depID, lgHash(rest)), c.txSym(lgHash(val))))
+			ls = append(ls, fmt.Sprintf("D:%s:%s", c15SymOf(c.depID, c15Hash(rest)), c.txSym(c15Hash(val))))
 		case "MINTUNIVERSAL":
 			m, err := common.UnmarshalMintDistribution(val)
 			if err != nil || m.Batch != binary.BigEndian.Uint64(rest) {
@@ -484,26 +484,26 @@ func (c *ledgerCase) dump(db *rawDB) string {
 			}
 			ls = append(ls, fmt.Sprintf("M:%d:%s:%s", m.Batch, integerToBig(m.Amount), c.txSym(m.Transaction)))
 		case "TRANSACTION":
-			sym := c.txSym(lgHash(rest))
-			if id, ok := c.txID[lgHash(rest)]; ok && !bytes.Equal(c.txByID[id].Marshal(), val) {
+			sym := c.txSym(c15Hash(rest))
+			if id, ok := c.txID[c15Hash(rest)]; ok && !bytes.Equal(c.txByID[id].Marshal(), val) {
 				sym += "?body"
 			}
 			ls = append(ls, "T:"+sym)
 		case "FINALIZATION":
-			ls = append(ls, fmt.Sprintf("F:%s:%s", c.txSym(lgHash(rest)), symOf(c.snapID, lgHash(val))))
+			ls = append(ls, fmt.Sprintf("F:%s:%s", c.txSym(c15Hash(rest)), c15SymOf(c.snapID, c15Hash(val))))
 		case "ASSETINFO":
 			var a common.Asset
 			if json.Unmarshal(val, &a) != nil {
 				ls = append(ls, "I:?")
 				continue
 			}
-			ls = append(ls, fmt.Sprintf("I:%s:%s:%s", symOf(c.assetID, lgHash(rest)), symOf(c.chainID, a.Chain), symOf(c.akeyID, a.AssetKey)))
+			ls = append(ls, fmt.Sprintf("I:%s:%s:%s", c15SymOf(c.assetID, c15Hash(rest)), c15SymOf(c.chainID, a.Chain), c15SymOf(c.akeyID, a.AssetKey)))
 		case "ASSETTOTAL":
-			ls = append(ls, fmt.Sprintf("A:%s:%s", symOf(c.assetID, lgHash(rest)), integerToBig(common.NewIntegerFromString(string(val)))))
+			ls = append(ls, fmt.Sprintf("A:%s:%s", c15SymOf(c.assetID, c15Hash(rest)), integerToBig(common.NewIntegerFromString(string(val)))))
 		case "WITHDRAWAL":
-			ls = append(ls, fmt.Sprintf("W:%s:%s", c.txSym(lgHash(rest)), c.txSym(lgHash(val))))
+			ls = append(ls, fmt.Sprintf("W:%s:%s", c.txSym(c15Hash(rest)), c.txSym(c15Hash(val))))
 		case "UNIQUE":
-			ls = append(ls, fmt.Sprintf("Q:%s:%s", c.txSym(lgHash(rest[:32])), c.nodeSym(lgHash(rest[32:]))))
+			ls = append(ls, fmt.Sprintf("Q:%s:%s", c.txSym(c15Hash(rest[:32])), c.nodeSym(c15Hash(rest[32:]))))
 		case "SNAPSHOT":
 			s, err := common.UnmarshalVersionedSnapshot(val)
 			if err != nil {
@@ -520,33 +520,33 @@ func (c *ledgerCase) dump(db *rawDB) string {
 				b, _ := strconv.Atoi(ts[j])
 				return a < b
 			})
-			sym := symOf(c.snapID, lgHash(rest[40:]))
-			if s.PayloadHash() != lgHash(rest[40:]) || s.NodeId != lgHash(rest[:32]) || s.RoundNumber != binary.BigEndian.Uint64(rest[32:40]) {
+			sym := c15SymOf(c.snapID, c15Hash(rest[40:]))
+			if s.PayloadHash() != c15Hash(rest[40:]) || s.NodeId != c15Hash(rest[:32]) || s.RoundNumber != binary.BigEndian.Uint64(rest[32:40]) {
 				sym += "?key"
 			}
 			ls = append(ls, fmt.Sprintf("S:%s:%s:%d:%d:%s", sym, c.nodeSym(s.NodeId), s.RoundNumber, s.Timestamp-c.epoch, strings.Join(ts, "+")))
 		case "TOPOLOGY":
 			sk := val[len("SNAPSHOT"):]
-			ls = append(ls, fmt.Sprintf("O:%d:%s", binary.BigEndian.Uint64(rest), symOf(c.snapID, lgHash(sk[40:]))))
+			ls = append(ls, fmt.Sprintf("O:%d:%s", binary.BigEndian.Uint64(rest), c15SymOf(c.snapID, c15Hash(sk[40:]))))
 		case "SNAPTOPO":
-			ls = append(ls, fmt.Sprintf("P:%s:%d", symOf(c.snapID, lgHash(rest)), binary.BigEndian.Uint64(val[len("TOPOLOGY"):])))
+			ls = append(ls, fmt.Sprintf("P:%s:%d", c15SymOf(c.snapID, c15Hash(rest)), binary.BigEndian.Uint64(val[len("TOPOLOGY"):])))
 		case "WORKSNAPSHOT":
-			ls = append(ls, fmt.Sprintf("K:%s:%d:%d:%s:%d", c.nodeSym(lgHash(rest[:32])), binary.BigEndian.Uint64(rest[32:40]),
-				binary.BigEndian.Uint64(rest[40:48])-c.epoch, symOf(c.snapID, lgHash(val[:32])), len(val)/32-1))
+			ls = append(ls, fmt.Sprintf("K:%s:%d:%d:%s:%d", c.nodeSym(c15Hash(rest[:32])), binary.BigEndian.Uint64(rest[32:40]),
+				binary.BigEndian.Uint64(rest[40:48])-c.epoch, c15SymOf(c.snapID, c15Hash(val[:32])), len(val)/32-1))
 		default:
 			h := crypto.Sha256Hash(append(append(opaque[:], key...), val...))
 			opaque = h
 		}
 	}
-	ls = append(ls, "X:"+symOf(c.opaqueID, opaque.String()))
+	ls = append(ls, "X:"+c15SymOf(c.opaqueID, opaque.String()))
 	sort.Strings(ls)
 	return strings.Join(ls, " ")
 }
 
-func (c *ledgerCase) opaqueDigest(db *rawDB) string {
+func (c *c15LedgerCase) opaqueDigest(db *c15RawDB) string {
 	opaque := crypto.Sha256Hash(nil)
 	for i, key := range db.keys {
-		switch lgFamily(key) {
+		switch c15Family(key) {
 		case "UTXO", "GHOST", "DEPOSIT", "MINTUNIVERSAL", "TRANSACTION", "FINALIZATION", "ASSETINFO", "ASSETTOTAL",
 			"WITHDRAWAL", "UNIQUE", "SNAPSHOT", "TOPOLOGY", "SNAPTOPO", "WORKSNAPSHOT":
 		default:
@@ -558,19 +558,19 @@ func (c *ledgerCase) opaqueDigest(db *rawDB) string {
 
 // ---------------------------------------------------------------- C17 observation
 
-type lgSupply struct{ total, unspent *big.Int }
+type c15Supply struct{ total, unspent *big.Int }
 
-func (c *ledgerCase) supply(db *rawDB) map[int]lgSupply {
-	res := map[int]lgSupply{}
+func (c *c15LedgerCase) supply(db *c15RawDB) map[int]c15Supply {
+	res := map[int]c15Supply{}
 	for _, a := range c.assets {
 		_, bal, err := c.store.ReadAssetWithBalance(c.assetOf[a])
 		if err != nil {
 			panic(err)
 		}
-		res[a] = lgSupply{integerToBig(bal), new(big.Int)}
+		res[a] = c15Supply{integerToBig(bal), new(big.Int)}
 	}
 	for i, key := range db.keys {
-		if lgFamily(key) != "UTXO" {
+		if c15Family(key) != "UTXO" {
 			continue
 		}
 		u, err := common.UnmarshalUTXO(db.vals[i])
@@ -595,18 +595,18 @@ func (c *ledgerCase) supply(db *rawDB) map[int]lgSupply {
 
 // ---------------------------------------------------------------- executor
 
-func execLedger(prop string) func(st *State, line string) Result {
+func c15ExecLedger(prop string) func(st *State, line string) Result {
 	return func(st *State, line string) Result {
 		f := strings.Fields(line)
 		res := Result{Tags: []string{f[0]}}
-		c, _ := st.V["ledger"].(*ledgerCase)
+		c, _ := st.V["ledger"].(*c15LedgerCase)
 		if f[0] == "reset" {
-			if lgLast != nil {
-				lgLast.close()
+			if c15Last != nil {
+				c15Last.close()
 			}
-			c = newLedgerCase(st.Dir)
+			c = c15NewLedgerCase(st.Dir)
 			st.V["ledger"] = c
-			lgLast = c
+			c15Last = c
 			res.Out = "ok"
 			return res
 		}
@@ -615,26 +615,26 @@ func execLedger(prop string) func(st *State, line string) Result {
 		}
 		switch f[0] {
 		case "config":
-			if lgAtoi(f[1]) != 1 || f[2] != lgClaimFee().String() {
+			if c15Atoi(f[1]) != 1 || f[2] != c15ClaimFee().String() {
 				panic("harness: config line disagrees with the repository constants")
 			}
 			res.Out = "ok"
 		case "asset":
-			a := lgAtoi(f[1])
+			a := c15Atoi(f[1])
 			c.assetHash(a)
 			c.assets = append(c.assets, a)
-			if f[2] != lgCap(a).String() {
+			if f[2] != c15Cap(a).String() {
 				panic("harness: asset capacity in op line disagrees with GetAssetCapacity")
 			}
 			c.expected[a] = new(big.Int)
 			res.Out = "ok"
 		case "ginfo":
-			c.chainID[lgChainHash(lgAtoi(f[2]))] = lgAtoi(f[2])
-			c.akeyID[lgAssetKey(lgAtoi(f[3]))] = lgAtoi(f[3])
+			c.chainID[c15ChainHash(c15Atoi(f[2]))] = c15Atoi(f[2])
+			c.akeyID[c15AssetKey(c15Atoi(f[3]))] = c15Atoi(f[3])
 			res.Out = "ok"
 		case "gsnap":
 			// LoadGenesis already ran at reset; this line only replays it on the model side
-			id := lgAtoi(f[7])
+			id := c15Atoi(f[7])
 			tx := c.txByID[id]
 			a := c.assetID[tx.Asset]
 			for _, o := range tx.Outputs {
@@ -642,29 +642,29 @@ func execLedger(prop string) func(st *State, line string) Result {
 			}
 			res.Out = "ok"
 		case "opaque":
-			c.opaqueID[c.opaqueDigest(c.raw())] = lgAtoi(f[1])
+			c.opaqueID[c.opaqueDigest(c.raw())] = c15Atoi(f[1])
 			res.Out = "ok"
 		case "tx":
 			c.buildTx(f)
 			res.Out = "ok"
 		case "validate":
-			id := lgAtoi(f[1])
+			id := c15Atoi(f[1])
 			tx := c.txByID[id]
 			out, panicked, _ := Catch(func() string {
-				if err := tx.Validate(c.store, c.epoch+lgTsBase, f[2] == "1"); err != nil {
+				if err := tx.Validate(c.store, c.epoch+c15TsBase, f[2] == "1"); err != nil {
 					return "reject"
 				}
 				return "ok"
 			})
 			res.Out = out
-			res.Tags = append(res.Tags, "validate:"+out+":"+lgTxKind(tx))
+			res.Tags = append(res.Tags, "validate:"+out+":"+c15TxKind(tx))
 			c.validated[id] = out == "ok"
 			if out != "ok" {
 				c.locked[id], c.pending[id] = false, false
 			}
 			res.Nontrivial = !panicked
 		case "lock":
-			id := lgAtoi(f[1])
+			id := c15Atoi(f[1])
 			tx := c.txByID[id]
 			out, _, _ := Catch(func() string {
 				if err := tx.LockInputs(c.store, f[2] == "1"); err != nil {
@@ -676,7 +676,7 @@ func execLedger(prop string) func(st *State, line string) Result {
 			res.Tags = append(res.Tags, "lock:"+out)
 			c.locked[id] = c.validated[id] && out == "ok"
 		case "put":
-			id := lgAtoi(f[1])
+			id := c15Atoi(f[1])
 			tx := c.txByID[id]
 			out, _, _ := Catch(func() string {
 				if err := c.store.WriteTransaction(tx); err != nil {
@@ -712,9 +712,9 @@ func execLedger(prop string) func(st *State, line string) Result {
 	}
 }
 
-var lgLast *ledgerCase
+var c15Last *c15LedgerCase
 
-func lgTxKind(tx *common.VersionedTransaction) string {
+func c15TxKind(tx *common.VersionedTransaction) string {
 	switch tx.TransactionType() {
 	case common.TransactionTypeScript:
 		return "script"
@@ -732,7 +732,7 @@ func lgTxKind(tx *common.VersionedTransaction) string {
 	return "other"
 }
 
-func (c *ledgerCase) checkSupply(sup map[int]lgSupply, res *Result) {
+func (c *c15LedgerCase) checkSupply(sup map[int]c15Supply, res *Result) {
 	for _, a := range c.assets {
 		s := sup[a]
 		switch {
@@ -742,9 +742,9 @@ func (c *ledgerCase) checkSupply(sup map[int]lgSupply, res *Result) {
 		case s.total.Cmp(c.expected[a]) != 0:
 			res.PropKey = "C17:total-differs-from-history"
 			res.PropDesc = fmt.Sprintf("asset %d: recorded total %s, genesis+deposits+mints-withdrawals over the finalized history %s", a, s.total, c.expected[a])
-		case s.total.Cmp(lgCap(a)) > 0:
+		case s.total.Cmp(c15Cap(a)) > 0:
 			res.PropKey = "C17:total-above-capacity"
-			res.PropDesc = fmt.Sprintf("asset %d: recorded total %s above capacity %s", a, s.total, lgCap(a))
+			res.PropDesc = fmt.Sprintf("asset %d: recorded total %s above capacity %s", a, s.total, c15Cap(a))
 		}
 		if res.PropKey != "" {
 			return
@@ -752,9 +752,9 @@ func (c *ledgerCase) checkSupply(sup map[int]lgSupply, res *Result) {
 	}
 }
 
-func (c *ledgerCase) execSnap(f []string, prop string, res *Result) {
-	sid, node, round, ts, topo, sg := lgAtoi(f[1]), lgAtoi(f[2]), lgAtoi(f[3]), lgAtoi(f[4]), lgAtoi(f[5]), lgAtoi(f[6])
-	ids := lgSplit(f[7], ",")
+func (c *c15LedgerCase) execSnap(f []string, prop string, res *Result) {
+	sid, node, round, ts, topo, sg := c15Atoi(f[1]), c15Atoi(f[2]), c15Atoi(f[3]), c15Atoi(f[4]), c15Atoi(f[5]), c15Atoi(f[6])
+	ids := c15Split(f[7], ",")
 	nodeID := c.nodes[node-1]
 	snap := &common.Snapshot{Version: common.SnapshotVersionCommonEncoding, NodeId: nodeID, RoundNumber: uint64(round),
 		Timestamp: c.epoch + uint64(ts)}
@@ -763,7 +763,7 @@ func (c *ledgerCase) execSnap(f []string, prop string, res *Result) {
 	}
 	var txs []int
 	for _, s := range ids {
-		id := lgAtoi(s)
+		id := c15Atoi(s)
 		tx := c.txByID[id]
 		if tx == nil {
 			panic("harness: snapshot refers to an undeclared transaction")
@@ -833,7 +833,7 @@ func (c *ledgerCase) execSnap(f []string, prop string, res *Result) {
 				}
 				// outputs of an already finalized transaction must not be written again
 				for i, k := range before.keys {
-					if lgFamily(k) == "UTXO" && bytes.HasPrefix(k[4:], h) {
+					if c15Family(k) == "UTXO" && bytes.HasPrefix(k[4:], h) {
 						if v, ok := after.get(k); (!ok || !bytes.Equal(v, before.vals[i])) && prop == "C15" {
 							res.PropKey, res.PropDesc = "C15:refinalized-outputs", fmt.Sprintf("transaction %d: outputs rewritten by a later snapshot", id)
 						}
@@ -843,7 +843,7 @@ func (c *ledgerCase) execSnap(f []string, prop string, res *Result) {
 		}
 		// every FINALIZATION that existed keeps its value
 		for i, k := range before.keys {
-			if lgFamily(k) == "FINALIZATION" {
+			if c15Family(k) == "FINALIZATION" {
 				if v, ok := after.get(k); (!ok || !bytes.Equal(v, before.vals[i])) && prop == "C15" {
 					res.PropKey, res.PropDesc = "C15:finalization-overwritten", "an existing finalization record changed"
 				}
@@ -854,7 +854,7 @@ func (c *ledgerCase) execSnap(f []string, prop string, res *Result) {
 			// totals: a snapshot made only of already finalized transactions changes no total and no UTXO
 			if shared == len(txs) && prop == "C15" {
 				for i, k := range before.keys {
-					fam := lgFamily(k)
+					fam := c15Family(k)
 					if fam == "ASSETTOTAL" || fam == "UTXO" || fam == "GHOST" || fam == "ASSETINFO" || fam == "WITHDRAWAL" {
 						if v, ok := after.get(k); !ok || !bytes.Equal(v, before.vals[i]) {
 							res.PropKey, res.PropDesc = "C15:effects-applied-twice", "re-finalizing finalized transactions changed "+fam
@@ -898,14 +898,14 @@ func (c *ledgerCase) execSnap(f []string, prop string, res *Result) {
 	}
 }
 
-func (c *ledgerCase) hashOf(id int) []byte {
+func (c *c15LedgerCase) hashOf(id int) []byte {
 	h := c.txByID[id].PayloadHash()
 	return h[:]
 }
 
 // name the reason a validated batch failed to finalize (stable keys; anything unexplained
 // gets its own key and is a violation)
-func (c *ledgerCase) classifyC16(txs []int, before *rawDB, out, msg string) (string, string) {
+func (c *c15LedgerCase) classifyC16(txs []int, before *c15RawDB, out, msg string) (string, string) {
 	type agg struct {
 		sum   *big.Int
 		n     int
@@ -948,13 +948,13 @@ func (c *ledgerCase) classifyC16(txs []int, before *rawDB, out, msg string) (str
 			return "C16:pending-first-deposits-conflicting-asset-info",
 				fmt.Sprintf("validated pending deposits of asset %d carry different (chain, asset key); WriteSnapshot -> %s", a, out)
 		}
-		if new(big.Int).Add(total, g.sum).Cmp(lgCap(a)) > 0 {
+		if new(big.Int).Add(total, g.sum).Cmp(c15Cap(a)) > 0 {
 			if !seen && g.n == 1 {
 				return "C16:first-deposit-of-unseen-asset-above-capacity",
-					fmt.Sprintf("validated first deposit of asset %d (%s) above the capacity %s; WriteSnapshot -> %s %s", a, g.sum, lgCap(a), out, msg)
+					fmt.Sprintf("validated first deposit of asset %d (%s) above the capacity %s; WriteSnapshot -> %s %s", a, g.sum, c15Cap(a), out, msg)
 			}
 			return "C16:pending-deposits-exceed-capacity",
-				fmt.Sprintf("validated pending deposits/mints of asset %d: total %s + %s > capacity %s; WriteSnapshot -> %s %s", a, total, g.sum, lgCap(a), out, msg)
+				fmt.Sprintf("validated pending deposits/mints of asset %d: total %s + %s > capacity %s; WriteSnapshot -> %s %s", a, total, g.sum, c15Cap(a), out, msg)
 		}
 	}
 	return "C16:validated-batch-failed", fmt.Sprintf("every member validated, locked and persisted, WriteSnapshot -> %s %s", out, msg)
